@@ -218,20 +218,43 @@ func newWorldCache() (*hugecache.Cache, error) {
 	})
 }
 
-// loadEpoch loads an epoch config with the real LoadConfig + Validate + NewEpochFromConfig. Every
-// epoch gets its own cache (the cache is keyed by CID and slot only, so epochs of different
-// worlds must never share one).
+// loadEpoch loads an epoch config with the real LoadConfig + Validate + NewEpochFromConfig, with a
+// private cache (the cache is keyed by CID and slot only: two worlds with the same epoch number
+// must never share one).
 func loadEpoch(configPath string) (*Epoch, error) {
+	cache, err := newWorldCache()
+	if err != nil {
+		return nil, err
+	}
+	return loadEpochWith(configPath, cache)
+}
+
+// newServerLoader returns a loader whose epochs all share ONE cache, which is what the rpc
+// command does for the epochs of a server (cmd-rpc.go creates a single cache and hands it to every
+// NewEpochFromConfig). Scenarios that model a server with several epochs use it; scenarios that
+// load variants of the same epoch one after the other (file faults) keep private caches, or a
+// cache hit would hide the fault they are about.
+func newServerLoader() func(configPath string) (*Epoch, error) {
+	var cache *hugecache.Cache
+	return func(configPath string) (*Epoch, error) {
+		if cache == nil {
+			c, err := newWorldCache()
+			if err != nil {
+				return nil, err
+			}
+			cache = c
+		}
+		return loadEpochWith(configPath, cache)
+	}
+}
+
+func loadEpochWith(configPath string, cache *hugecache.Cache) (*Epoch, error) {
 	config, err := LoadConfig(configPath)
 	if err != nil {
 		return nil, fmt.Errorf("LoadConfig: %w", err)
 	}
 	if err := config.Validate(); err != nil {
 		return nil, fmt.Errorf("config.Validate: %w", err)
-	}
-	cache, err := newWorldCache()
-	if err != nil {
-		return nil, err
 	}
 	c := cli.NewContext(cli.NewApp(), flag.NewFlagSet("world", flag.ContinueOnError), nil)
 	c.Context = context.Background()
